@@ -274,6 +274,12 @@ def toUnsigned {k : Nat} (N : Nat) (ws : Words k) : Option (Except Err Nat) :=
       .ok r.toNat)
   else Option.none
 
+/-- the body of the string-constructor loop for character `ch` and bit `i`:
+    `if (Traits::eq(ch, one)) set(i, true); if (Traits::eq(ch, zero)) set(i, false);` -/
+def fromStringBody {k : Nat} (N : Nat) (ws : Words k) (i ch zeroCh oneCh : Nat) : Except Err (Words k) := do
+  let ws1 ← if ch == oneCh then set N ws i true else .ok ws
+  if ch == zeroCh then set N ws1 i false else .ok ws1
+
 /-- the loop of `bitset(basic_string_view str, pos, n, zero, one)`: character `pos + len - 1 - i`
     decides bit `i`; first argument = iterations left -/
 def fromStringLoop {k : Nat} (N : Nat) (str : List Nat) (pos len zeroCh oneCh : Nat) :
@@ -281,8 +287,7 @@ def fromStringLoop {k : Nat} (N : Nat) (str : List Nat) (pos len zeroCh oneCh : 
   | 0, _, ws => .ok ws
   | f + 1, i, ws => do
     let ch ← rd str (pos + len - 1 - i)
-    let ws1 ← if ch == oneCh then set N ws i true else .ok ws
-    let ws2 ← if ch == zeroCh then set N ws1 i false else .ok ws1
+    let ws2 ← fromStringBody N ws i ch zeroCh oneCh
     fromStringLoop N str pos len zeroCh oneCh f (i + 1) ws2
 
 def NPOS : Nat := 2 ^ 64 - 1
